@@ -45,6 +45,23 @@ theorem cmb_merge_strands_mixed (v w : Val) (vs : List Val) (hw : w ∈ vs) (hne
 /-- `sum` / the numeric combiners read the integer cells -/
 theorem cmb_sum (vs : List Val) : applyCmb .sumOf vs = .num (vs.map Val.int).sum := rfl
 
+theorem foldl_max_ge (l : List Int) (a : Int) : a ≤ l.foldl max a ∧ ∀ x ∈ l, x ≤ l.foldl max a := by
+  induction l generalizing a with
+  | nil => simp
+  | cons y ys ih =>
+    obtain ⟨h1, h2⟩ := ih (max a y)
+    refine ⟨Int.le_trans (Int.le_max_left a y) h1, ?_⟩
+    intro x hx
+    rcases List.mem_cons.mp hx with rfl | hx
+    · exact Int.le_trans (Int.le_max_right a x) h1
+    · exact h2 x hx
+
+/-- `max` (the combiner of `end`): the result is at least every value of the group -/
+theorem cmb_max_ge (vs : List Val) (v : Val) (hv : v ∈ vs) :
+    ∃ m, applyCmb .maxOf vs = .num m ∧ v.int ≤ m := by
+  refine ⟨_, rfl, ?_⟩
+  exact (foldl_max_ge (vs.map Val.int) _).2 v.int (List.mem_map_of_mem hv)
+
 /-! ### get_combiners -/
 
 theorem lookup_filter_key (q : String → Bool) (l : List (String × Cmb)) (k : String) :
